@@ -413,7 +413,12 @@ class PEventListenerDispatcher(PDispatcher):
                 self.state_buffer = self.state_buffer[pos+1:] # rid LF
                 resultlen = result_line[self.RESULT_TOKEN_START_LEN:]
                 try:
-                    self.resultlen = int(resultlen)
+                    if not result_line.startswith(self.RESULT_TOKEN_START):
+                        raise ValueError('no result token')
+                    resultlen = int(resultlen)
+                    if resultlen < 0:
+                        raise ValueError('negative result length')
+                    self.resultlen = resultlen
                 except ValueError:
                     try:
                         result_line = as_string(result_line)
